@@ -124,16 +124,16 @@ macro_rules! reassembly {
 }
 
 // bound: keepalive: KeepAlive(c) || ResponseKeepAlive(c'), cookies any u16 of the 3-byte head class, every cut 0..=len; 8-byte stream buffer; unwind 10
-reassembly!(c21_q_ka_request_response, ka::Message, 8, 10, ka::Message::KeepAlive(any_u16()), ka::Message::ResponseKeepAlive(any_u16()), ka::eq);
+reassembly!(c21_q_n1_ka_request_response, ka::Message, 8, 10, ka::Message::KeepAlive(any_u16()), ka::Message::ResponseKeepAlive(any_u16()), ka::eq);
 // bound: keepalive: ResponseKeepAlive(c) || Done; unwind 10
-reassembly!(c21_q_ka_response_done, ka::Message, 8, 10, ka::Message::ResponseKeepAlive(any_u16()), ka::Message::Done, ka::eq);
+reassembly!(c21_q_n1_ka_response_done, ka::Message, 8, 10, ka::Message::ResponseKeepAlive(any_u16()), ka::Message::Done, ka::eq);
 
 /// vacuity twin: must come back FAILED
 #[kani::proof]
 #[kani::unwind(10)]
 #[kani::stub(std::fmt::format, crate::stubs::fmt_format_stub)]
 #[kani::stub(cu, crate::stubs::catch_unwind_stub)]
-fn c21_v_twin() {
+fn c21_v_n1_twin() {
     let mut buf: Vec<u8> = Vec::with_capacity(4);
     let b: [u8; 2] = kani::any();
     buf.extend_from_slice(&b);
